@@ -15,6 +15,7 @@ import (
 	"verif/txkit"
 
 	"github.com/lianxiangcloud/linkchain/libs/common"
+	"github.com/lianxiangcloud/linkchain/libs/crypto"
 	"github.com/lianxiangcloud/linkchain/libs/cryptonote/ringct"
 	lk "github.com/lianxiangcloud/linkchain/libs/cryptonote/types"
 	"github.com/lianxiangcloud/linkchain/libs/cryptonote/xcrypto"
@@ -111,8 +112,11 @@ func (o op) kindName() string {
 	case "lie":
 		return fmt.Sprintf("lie:%s:%s", tok, ringName(o.Ring))
 	case "hostile":
-		if strings.HasPrefix(o.Var, "ain-") {
+		if strings.HasPrefix(o.Var, "ain-") || strings.HasPrefix(o.Var, "wrap-ain") {
 			return "hostile:" + o.Var
+		}
+		if o.Var == "wrap-fee" && len(o.Dests) > 0 {
+			return "hostile:wrap-fee:ain"
 		}
 		return fmt.Sprintf("hostile:%s:%s", o.Var, ringName(o.Ring))
 	}
@@ -185,9 +189,82 @@ func account(name string) *txkit.Account {
 		return txkit.C
 	case "D":
 		return txkit.D
+	case "E":
+		return whale
 	}
 	return nil
 }
+
+// whale: a genesis account that owns more than twice (group order x unit) coins, so that account-side balance checks
+// cannot hide what the commitment arithmetic does with amounts around the order of the curve group.
+var whale = func() *txkit.Account {
+	k, err := crypto.ToECDSA(crypto.Keccak256([]byte("verif-c06-account-E")))
+	if err != nil {
+		panic(err)
+	}
+	return &txkit.Account{Name: "E", Key: k, Addr: crypto.PubkeyToAddress(k.PublicKey)}
+}()
+
+func whaleBalance() *big.Int {
+	return add(new(big.Int).Mul(new(big.Int).Mul(curveL, unit), bi(3)), txkit.LKC(100000))
+}
+
+// wrapOffsets: amounts (in units) around which a scalar reduction or a truncation of a PUBLIC amount could make the
+// commitment equation hold although the integers differ: multiples of the group order l (x10/x20: still multiples of
+// the gas price, for fees), l itself and l-1 as absolute values, powers of two at the widths of the encodings, and
+// 2^256 mod l.
+var wrapOffsets = []string{"l", "2l", "10l", "20l", "=l", "=l-1", "2^64", "2^128", "2^252", "2^255", "2^256", "r256"}
+
+// wrapFee is wrapAmount for a fee: the offset is taken ten times, so that the result stays a multiple of the gas price
+// (10 units) and is not refused for that reason alone.
+func wrapFee(honest *big.Int, arg string) (*big.Int, error) {
+	v, err := wrapAmount(honest, arg)
+	if err != nil {
+		return nil, err
+	}
+	if strings.HasPrefix(arg, "=") {
+		return mul(v, 10), nil
+	}
+	return add(honest, mul(sub(v, honest), 10)), nil
+}
+
+// wrapAmount applies offset class arg to the honest public amount (wei, a multiple of the unit).
+func wrapAmount(honest *big.Int, arg string) (*big.Int, error) {
+	pow := func(n uint) *big.Int { return new(big.Int).Lsh(bi(1), n) }
+	var off *big.Int
+	switch arg {
+	case "l":
+		off = new(big.Int).Set(curveL)
+	case "2l":
+		off = mul(curveL, 2)
+	case "10l":
+		off = mul(curveL, 10)
+	case "20l":
+		off = mul(curveL, 20)
+	case "=l":
+		return new(big.Int).Mul(curveL, unit), nil
+	case "=l-1":
+		return new(big.Int).Mul(sub(curveL, bi(1)), unit), nil
+	case "2^64":
+		off = pow(64)
+	case "2^128":
+		off = pow(128)
+	case "2^252":
+		off = pow(252)
+	case "2^255":
+		off = pow(255)
+	case "2^256":
+		off = pow(256)
+	case "r256":
+		off = new(big.Int).Mod(pow(256), curveL)
+	default:
+		return nil, fmt.Errorf("unknown wrap offset %q", arg)
+	}
+	return add(honest, new(big.Int).Mul(off, unit)), nil
+}
+
+// reducedAmountKey: (amount / unit) mod l as a scalar: what a commitment routine that reduces instead of refusing computes.
+func reducedAmountKey(amount *big.Int) lk.Key { return bigToScalar(new(big.Int).Div(amount, unit)) }
 
 func walletOf(name string) *txkit.Wallet {
 	switch name {
@@ -384,7 +461,7 @@ func (x *bctx) build(o op) (*txMeta, error) {
 	case "multisign", "upgrade":
 		return x.buildSpecial(o)
 	case "uspend", "lie", "hostile":
-		if o.Kind == "hostile" && strings.HasPrefix(o.Var, "ain-") {
+		if o.Kind == "hostile" && (strings.HasPrefix(o.Var, "ain-") || strings.HasPrefix(o.Var, "wrap-ain") || (o.Var == "wrap-fee" && len(o.Dests) > 0)) {
 			return x.buildAin(o)
 		}
 		return x.buildSpend(o)
@@ -634,6 +711,12 @@ func feeAdjust(min *big.Int, class string) (*big.Int, error) {
 		return sub(min, price), nil
 	case "zero":
 		return bi(0), nil
+	case "cap": // the fee of the largest chargeable amount (MaxGasLimit): adequate whatever the public amount says
+		c := gasFee(uint64(types.MaxGasLimit))
+		if c.Cmp(min) < 0 {
+			return new(big.Int).Set(min), nil
+		}
+		return c, nil
 	}
 	return nil, fmt.Errorf("unknown fee class %q", class)
 }
@@ -724,6 +807,23 @@ func (x *bctx) buildAin(o op) (*txMeta, error) {
 		case "ain-fee-uncommitted": // the outputs take the whole input, the fee is only declared
 			tx.Fee = new(big.Int).Set(fee)
 			m.Why = "declared fee is not part of the commitment balance"
+		case "wrap-ain", "wrap-ain-recommit": // the account input amount moved by an offset around the group order / the encodings
+			v, werr := wrapAmount(in.Amount, o.Arg)
+			if werr != nil {
+				return nil, werr
+			}
+			in.Amount = v
+			if o.Var == "wrap-ain-recommit" {
+				in.Commit, _ = ringct.AddKeys2(in.CF, reducedAmountKey(v), ringct.H)
+			}
+			m.Why = "account input amount differs from the committed one by " + o.Arg + " units"
+		case "wrap-fee": // the declared fee moved; the account input (which pays it) is not
+			v, werr := wrapFee(tx.Fee, o.Arg)
+			if werr != nil {
+				return nil, werr
+			}
+			tx.Fee, m.Fee = v, v
+			m.Why = "declared fee differs from the committed one by " + o.Arg + " units"
 		case "ain-overflow": // 2^64 units more: the commitment arithmetic silently drops what does not fit 8 bytes
 			in.Amount = add(in.Amount, new(big.Int).Mul(new(big.Int).Lsh(bi(1), 64), unit))
 			in.Commit = types.AmountCommit(new(big.Int).Div(in.Amount, rate), in.CF)
@@ -981,6 +1081,13 @@ func (x *bctx) buildSpend(o op) (*txMeta, error) {
 		if tok != coinTok {
 			pay = new(big.Int).Set(declared)
 		}
+	case strings.HasPrefix(hostileVar, "wrap-aout") && tok == coinTok:
+		// everything to the account, fee of the largest chargeable amount (the public amount will be huge)
+		fee = gasFee(uint64(types.MaxGasLimit))
+		pay, change = sub(in, fee), bi(0)
+		if pay.Sign() <= 0 {
+			return nil, disabled("inputs %v do not cover the capped fee %v", in, fee)
+		}
 	case o.Amt == "all":
 		if toWallet {
 			fee, err = feeAdjust(minFee(nil, true), o.Fee)
@@ -1114,6 +1221,27 @@ func (x *bctx) buildSpend(o op) (*txMeta, error) {
 			ao.Commit = ringct.ScalarmultH(k)
 			m.AccAmount = ao.Amount
 			m.Class, m.Why = "must-reject", "outputs + fee above the inputs"
+		case "wrap-aout", "wrap-aout-recommit": // the account output amount moved by an offset around the group order / the encodings
+			ao := tx.Outputs[0].(*types.AccountOutput)
+			v, werr := wrapAmount(ao.Amount, o.Arg)
+			if werr != nil {
+				berr = werr
+				return
+			}
+			ao.Amount = v
+			if hostileVar == "wrap-aout-recommit" {
+				ao.Commit = ringct.ScalarmultH(reducedAmountKey(v))
+			}
+			m.AccAmount = v
+			m.Class, m.Why = "must-reject", "account output amount differs from the committed one by "+o.Arg+" units"
+		case "wrap-fee": // the declared fee moved, the commitments are those of the honest fee
+			v, werr := wrapFee(tx.Fee, o.Arg)
+			if werr != nil {
+				berr = werr
+				return
+			}
+			tx.Fee, m.Fee = v, v
+			m.Class, m.Why = "must-reject", "declared fee differs from the committed one by "+o.Arg+" units"
 		case "aout-overflow":
 			ao := tx.Outputs[0].(*types.AccountOutput)
 			ao.Amount = add(ao.Amount, new(big.Int).Mul(new(big.Int).Lsh(bi(1), 64), unit))
